@@ -1,19 +1,18 @@
 (* C10 Re-building an existing PURL is the identity *)
 Load "coq/props/Hdr".
 From PM Require Import BuildG BuildGen C01P Assemble.
-Lemma src_rt : rt_ok cfg. Proof. prove_rt. Qed.
 Lemma src_cfg_ok : cfg_ok cfg. Proof. sc. Qed.
 Lemma G_st : finish_stable G. Proof. apply G_finish_stable. Qed.
-Lemma P_st : finish_stable P. Proof. apply (pt_finish_stable cfg src_rt); sc. Qed.
+Lemma P_st : finish_stable P. Proof. apply (pt_finish_stable cfg); sc. Qed.
 Theorem C10_parsed_generic : forall s t p, parse cfg G s = Ok (t, p) -> build cfg G t p = Ok (t, p).
-Proof. intros s t p. apply (C10_parse cfg src_rt); try sc. exact G_st. Qed.
+Proof. intros s t p. apply (C10_parse cfg); try sc. exact G_st. Qed.
 Print Assumptions C10_parsed_generic.
 Theorem C10_parsed_typed : forall s t p, parse cfg P s = Ok (t, p) -> build cfg P t p = Ok (t, p).
-Proof. intros s t p. apply (C10_parse cfg src_rt); try sc. exact P_st. Qed.
+Proof. intros s t p. apply (C10_parse cfg); try sc. exact P_st. Qed.
 Print Assumptions C10_parsed_typed.
 Theorem C10_built_generic : forall t0 p0 t p, fields_valid cfg p0 -> build cfg G t0 p0 = Ok (t, p) -> build cfg G t p = Ok (t, p).
-Proof. intros t0 p0 t p. apply (C10_build cfg src_rt); try sc. exact G_st. Qed.
+Proof. intros t0 p0 t p. apply (C10_build cfg); try sc. exact G_st. Qed.
 Print Assumptions C10_built_generic.
 Theorem C10_built_typed : forall t0 p0 t p, fields_valid cfg p0 -> build cfg P t0 p0 = Ok (t, p) -> build cfg P t p = Ok (t, p).
-Proof. intros t0 p0 t p. apply (C10_build cfg src_rt); try sc. exact P_st. Qed.
+Proof. intros t0 p0 t p. apply (C10_build cfg); try sc. exact P_st. Qed.
 Print Assumptions C10_built_typed.
